@@ -309,7 +309,7 @@ def run(ctx: lib.Ctx) -> None:
         add_apply(doc['source'], doc['patch'], bool(doc.get('revert')), 'corpus')
 
     # ---- 1. difflib patches
-    npairs = ctx.n(180, 3000)
+    npairs = ctx.n(120, 3000)
     fixed = [('', ''), ('', 'a\n'), ('a\n', ''), ('a', ''), ('', 'a'), ('a', 'a\n'), ('a\n', 'a'), ('a\nb', 'a\nb\nc'), ('a\nb\nc', 'a\nb'),
              ('\n', ''), ('\n\n', '\n'), ('a\n\n', 'a\n'), ('@\n', '@@\n'), ('\\ No newline at end of file\n', '\\ No newline at end of file'),
              ('x\ny', 'x\nz\n'), ('x\ny', 'x\nz'), ('y', 'z'), ('y', 'z\n'), ('y\n', 'z'), ('p\nq\ny', 'p\nQ\nz'),
@@ -342,7 +342,7 @@ def run(ctx: lib.Ctx) -> None:
 
     # ---- 2. hand-built scripts
     script_fail = []
-    nscripts = ctx.n(150, 2500)
+    nscripts = ctx.n(100, 2500)
     made = 0
     tries = 0
     while made < nscripts and tries < nscripts * 6:
@@ -370,7 +370,7 @@ def run(ctx: lib.Ctx) -> None:
 
     # ---- 2b. texts with other line separators (outside the model's domain: oracle (B) only)
     exotic = ['a', 'b', '\r', '\n', '\x0c', '\x0b', '\x1c', '\x85', ' ', '\r\n', '\u2028', 'é']
-    for _ in range(ctx.n(300, 6000)):
+    for _ in range(ctx.n(200, 6000)):
         a = ''.join(rng.choice(exotic) for _ in range(rng.randrange(0, 8)))
         b = ''.join(rng.choice(exotic) for _ in range(rng.randrange(0, 8)))
         cs = rng.randrange(6)
@@ -385,7 +385,7 @@ def run(ctx: lib.Ctx) -> None:
 
     # ---- 3. malformed stream (A only)
     base = [m for m in apply_meta if m[4] in ('difflib', 'script') and m[1]]
-    for _ in range(ctx.n(200, 3000)):
+    for _ in range(ctx.n(130, 3000)):
         src, patch, rv, _, _ = rng.choice(base)
         bad = malform(rng, patch)
         if rng.random() < 0.2:
@@ -394,7 +394,7 @@ def run(ctx: lib.Ctx) -> None:
         ctx.case(('m', src, bad, rv), nontrivial=True, kind=f'malformed:{"reject" if got is None else "accepted"}')
 
     # ---- 4. Protocol.diff / Protocol.patch
-    for k in range(ctx.n(40, 400)):
+    for k in range(ctx.n(26, 400)):
         names = rng.sample(['alpha', 'beta', 'gamma_x', 'delta', 'eps'], rng.choice([1, 2, 3, 4]))
         yf, tf = [], []
         for nm in names:
@@ -436,7 +436,7 @@ def run(ctx: lib.Ctx) -> None:
             allcases.append((3 * sum(len(t) for _, t in dfiles + list(yours)) + 60,
                              (f'(DProto {fl(list(yours))} {fl(dfiles)} {out})', 'proto', (yf, tf, cs, res))))
     # ---- (A): the model evaluates every collected case inside coqc
-    shard = ctx.n(90, 250)
+    shard = ctx.n(170, 400)
     ordered = balanced(allcases, shard)
     bad = ctx.coq_mismatches('cases', IMPORTS, 'dcheck', 'Bool.eqb', 'dcase', 'bool', [(lit, 'true') for lit, _, _ in ordered], shard=shard)
     ctx.extra['coq_cases'] = {k: sum(1 for _, s_, _ in ordered if s_ == k) for k in ('apply', 'script', 'proto')}
